@@ -2,7 +2,10 @@ import KM.Driver.Core
 import KM.Model.Seal
 /-! Driver for C09. Stateful ops:
 `reset <ed 0|1>` · `reset2 <ed> <preloaded keys s|e|f…|->` · `inj2 …` (digest + `in=<signer key published><ed key published>`) · `inj notls|nochain|noform|pass:<hex passphrase>` · `req`
-each ↦ `<status> <signer?> <ed?> <#published> <#caCerts> <#readySignals>` -/
+each ↦ `<status> <signer?> <ed?> <#published> <#caCerts> <#readySignals>`
+round 5: `reset3 <main file g|e|x|n|o> <ed file -|g|c|r|x|n|z|o> <preloaded>` · `inj3 …` ↦ digest2 + ` ca=<CA cert over signer key><over ed key> obs=<readyz>,<guarded route>`
+(files: g the good key · e/c/r an Ed25519/ECDSA/RSA key where it does not belong · x a PEM block that is no key · n no PEM · z empty · o the good key under another passphrase);
+mode `judge`: `<reset|inj> <status> <signer s|?|-> <ed e|?|-> <in=..> <ca=..> <#ready> <readyz> <guard>` ↦ `ok` / `viol …` (`Seal.soundB`, `Seal.obsOK`, refused ⇒ still sealed) -/
 namespace KM.Driver.C09
 open KM.Util KM.Seal
 
@@ -23,13 +26,33 @@ def parsePre (t : String) : Option (List Nat) :=
   if t == "-" then some []
   else t.toList.mapM (fun ch => if ch == 's' then some 10 else if ch == 'e' then some 11 else if ch == 'f' then some 99 else none)
 
+def digest3 (cfg : Cfg) (status : Nat) (s : State) : String :=
+  s!"{digest2 cfg status s} ca={boolStr (s.caKeys.contains cfg.signerKey)}{boolStr (s.caKeys.contains 11)} obs={readyz s},{match guardedStatus s with | some n => toString n | none => "pass"}"
+
+/-- the key-file fixtures of `reset3` -/
+def parseFiles (p e : String) : Option Cfg :=
+  let main : Option (Nat × Bool) :=
+    if p == "g" then some (1, true) else if p == "o" then some (3, true)
+    else if p == "e" || p == "x" || p == "n" then some (1, false) else none
+  -- every file is encrypted under "password" except the `o` ones; the injected passphrase has to open both
+  let ed : Option (Option Nat × EdFile) :=
+    if e == "-" then some (none, .usable)
+    else if !(["g", "c", "r", "x", "n", "z", "o"].contains e) then none
+    else if (e == "o") != (p == "o") then some (some 11, .otherPassphrase)
+    else if e == "g" || e == "o" then some (some 11, .usable)
+    else if e == "z" then some (none, .usable)      -- an empty plaintext is treated like no Ed25519 file
+    else some (some 11, .notEd25519)
+  match main, ed with
+  | some (c, u), some (k, f) => some { correct := c, signerKey := 10, edKey := k, signerUsable := u, edFile := f }
+  | _, _ => none
+
 def parseInj (t : String) : Option Inj :=
   if t == "notls" then some .noTLS
   else if t == "nochain" then some .noVerifiedChain
   else if t == "noform" then some .noPassphraseField
   else if t.startsWith "pass:" then
     match unhex (t.drop 5).toString with
-    | some p => some (.pass (if p == "password" then 1 else 2))
+    | some p => some (.pass (if p == "password" then 1 else if p == "another passphrase" then 3 else 2))
     | none => none
   else none
 
@@ -52,6 +75,16 @@ def stepLine (st : St) : List String → St × String
       let (s', status) := inject st.cfg st.s i
       ({ st with s := s' }, digest2 st.cfg status s')
     | none => (st, "bad-op")
+  | ["reset3", p, e, pre] =>
+    match parseFiles p e, parsePre pre with
+    | some cfg, some pre => ({ cfg := cfg, s := initWith pre }, digest3 cfg 0 (initWith pre))
+    | _, _ => (st, "bad-op")
+  | ["inj3", t] =>
+    match parseInj t with
+    | some i =>
+      let (s', status) := inject st.cfg st.s i
+      ({ st with s := s' }, digest3 st.cfg status s')
+    | none => (st, "bad-op")
   | ["inj", t] =>
     match parseInj t with
     | some i =>
@@ -69,9 +102,46 @@ def stepLine (st : St) : List String → St × String
   | ["req"] => (st, s!"{readyz st.s} {match guardedStatus st.s with | some n => toString n | none => "pass"}")
   | _ => (st, "bad-op")
 
+/-! ### judge: the state observed on the implementation, evaluated with the predicates of `c09_sound`,
+`c09_sealed_fails_closed`/`c09_ready_iff` and `c09_refused_stays_sealed`; reads no configuration -/
+
+def parseKey (t : String) (known : String) (k : Nat) : Option (Option Nat) :=
+  if t == "-" then some none else if t == known then some (some k) else if t == "?" then some (some 98) else none
+
+def parseBits (t : String) (pfx : String) : Option (Bool × Bool) :=
+  if t.startsWith pfx then
+    match (t.drop pfx.length).toString.toList with
+    | [a, b] => match parseBool (String.singleton a), parseBool (String.singleton b) with
+      | some x, some y => some (x, y)
+      | _, _ => none
+    | _ => none
+  else none
+
+def keysOf (b : Bool × Bool) : List Nat := (if b.1 then [10] else []) ++ (if b.2 then [11] else [])
+
+/-- judge state: was the server sealed after the previous line of this history? -/
+def judgeLine (prevSealed : Bool) : List String → Bool × String
+  | [kind, status, sg, ed, inn, ca, ready, rz, guard] =>
+    match status.toNat?, parseKey sg "s" 10, parseKey ed "e" 11, parseBits inn "in=", parseBits ca "ca=",
+          ready.toNat?, rz.toNat? with
+    | some status, some sg, some ed, some inn, some ca, some ready, some rz =>
+      if kind != "reset" && kind != "inj" then (prevSealed, "bad-op") else
+      let s : State := { signer := sg, edSigner := ed, published := keysOf inn, caKeys := keysOf ca, readySignals := ready }
+      let sealedNow := s.signer.isNone
+      let verdict :=
+        if !soundB s then s!"viol unsound-state signer={sg.isSome} ed={ed.isSome} published={keysOf inn} certified={keysOf ca} ready-signals={ready}"
+        else if !obsOK s rz (guard == "500") then s!"viol observers-disagree-with-seal sealed={sealedNow} readyz={rz} guarded-route={guard}"
+        else if kind == "inj" && prevSealed && status != 200 && !sealedNow then s!"viol refused-injection-unsealed status={status}"
+        else "ok"
+      (sealedNow, verdict)
+    | _, _, _, _, _, _, _ => (prevSealed, "bad-op")
+  | _ => (prevSealed, "bad-op")
+
 def handler (mode : String) : Option Handler :=
   if mode == "model" then
     some { σ := St, init := { cfg := { correct := 1, signerKey := 10, edKey := none }, s := init }, step := stepLine }
+  else if mode == "judge" then
+    some { σ := Bool, init := true, step := judgeLine }
   else none
 
 end KM.Driver.C09
